@@ -43,21 +43,24 @@ def _nontrivial(prop: str, hist: List[Dict[str, Any]]) -> bool:
 
 
 def variants(prop: str, tier: str) -> List[Dict[str, Any]]:
-    """(store kind of the spec run, store kind on the real side, layouts, import form, fraction)"""
+    """Alias / module import forms change the text of the caller between layouts (the call
+    is spelled differently), so Relayout is only enabled (>= 2 layouts) with plain from-imports.
+    (store kind of the spec run, store kind on the real side, layouts, import form, fraction)"""
     if prop == "C04":
         v = [dict(spec_store="local", real_store="local", layouts=["one", "split"], imp="from", frac=0.5),
-             dict(spec_store="local", real_store="local+lru", layouts=["split", "one"], imp="from_as", frac=0.25)]
+             dict(spec_store="local", real_store="local+lru", layouts=["split"], imp="from_as", frac=0.25)]
         return v
     v = [dict(spec_store="local", real_store="local", layouts=["one", "split"], imp="from", frac=1.0),
-         dict(spec_store="local", real_store="local+lru", layouts=["split", "one"], imp="from_as", frac=0.34),
+         dict(spec_store="local", real_store="local+lru", layouts=["split"], imp="from_as", frac=0.34),
          dict(spec_store="memory", real_store="memory", layouts=["one", "moved"], imp="from", frac=0.34)]
     if prop == "C01":
-        v.append(dict(spec_store="noop", real_store="noop", layouts=["one", "split"], imp="module", frac=0.2))
+        v.append(dict(spec_store="noop", real_store="noop", layouts=["split"], imp="module", frac=0.2))
     if tier == "thorough":
         for x in v:
             x["frac"] = 1.0
-        v.append(dict(spec_store="local", real_store="local", layouts=["deep", "one"], imp="module_as", frac=1.0))
-        v.append(dict(spec_store="memory", real_store="memory+lru", layouts=["split", "one"], imp="module", frac=1.0))
+        v.append(dict(spec_store="local", real_store="local", layouts=["deep"], imp="module_as", frac=1.0))
+        v.append(dict(spec_store="memory", real_store="memory+lru", layouts=["split"], imp="module", frac=1.0))
+        v.append(dict(spec_store="local", real_store="local", layouts=["split", "deep", "one"], imp="from", frac=1.0))
     return v
 
 
